@@ -296,3 +296,5 @@ def run(chk, F):
     chk.run_rule("C09.reinsertion", "a re-inserted entry keeps hash, length and sequence and is skipped when the key left the index", 4, reinsertion, F)
     chk.run_rule("C09.reinsertion-size-limit", "push_slice (re-insertion) accepts exactly the entry sizes push (insertion) accepts", 1, size_limit_siblings, F)
     chk.run_rule("C09.only-full", "only completely written blocks are handed to on_writing_finish", 1, only_full, F)
+    from rules import mustcall
+    mustcall.run_for(chk, F, "C09")
